@@ -227,6 +227,10 @@ fn exec(case: &Case, em: &mut Emitter) {
             }
             for unwind in [false, true] {
                 total += 1;
+                if total % 1000 == 0 {
+                    // a sign of life for the runner's hang detection
+                    em.emit(json!({"t":"progress","histories":total}));
+                }
                 if let Err((clause, detail)) = run_history(&h, unwind) {
                     let clause = if unwind { format!("{clause}:during-unwind") } else { clause };
                     if !firsts.iter().any(|f| f.0 == clause) {
